@@ -1690,6 +1690,98 @@ def run(chk):
             chk.unknown("O9.5", f"{inst}: the future's exception is read but handed to `{short(handed_on, 60)}`, which the rule does not follow", handed_on)
         elif not found:
             chk.ob("O9.5", inst, False, f, "the handler never reads <future>.exception() into a tested variable")
+    # ---- O9.5p the polled exception crosses the process boundary as text ------------------------------
+    chk.rule("O9.5p", "the exception an actor polls from its executor future comes out of code only this process has loaded (runners, parameter sources and preparation tasks of "
+             "track plugins), while the failure notification is unpickled in the processes of the parent actors up to race control: wherever that exception object flows into the "
+             "payload of a send (in the wake-up handler or in a helper method it is handed to, through locals, containers and conditional expressions) it is converted to text "
+             "first (str / repr / formatting); the object itself never is an argument of the message", 2,
+             "a failure whose exception class is defined in a track plugin cannot be unpickled by the driver / race control process: the actor system drops the message, race control is never told and the race hangs")
+    _TEXT_CALLS = {"str", "repr", "format", "type", "format_exc", "format_exception", "format_exception_only", "join"}
+
+    def _is_poll(e_):
+        return isinstance(e_, ast.Call) and isinstance(e_.func, ast.Attribute) and e_.func.attr == "exception"
+
+    def _raw_flow(e_, names):
+        """does the exception object (a name in `names` or the poll itself) reach the value of e_ as an object? True: yes; False: no (not used, or only as text); None: not recognised"""
+        if isinstance(e_, ast.Name):
+            return e_.id in names
+        if _is_poll(e_):
+            return True
+        if not any((isinstance(x, ast.Name) and x.id in names) or _is_poll(x) for x in ast.walk(e_)):
+            return False
+        if isinstance(e_, ast.JoinedStr) or (isinstance(e_, ast.BinOp) and isinstance(e_.op, ast.Mod)):
+            return False
+        if isinstance(e_, ast.Call):
+            return False if last_attr(e_.func) in _TEXT_CALLS else None
+        if isinstance(e_, (ast.Tuple, ast.List, ast.Set)):
+            parts = list(e_.elts)
+        elif isinstance(e_, ast.Dict):
+            parts = [k_ for k_ in e_.keys if k_ is not None] + list(e_.values)
+        elif isinstance(e_, ast.IfExp):
+            parts = [e_.body, e_.orelse]
+        elif isinstance(e_, ast.BoolOp):
+            parts = list(e_.values)
+        elif isinstance(e_, ast.Starred):
+            parts = [e_.value]
+        else:
+            return None
+        vs = [_raw_flow(x, names) for x in parts]
+        return True if True in vs else (None if None in vs else False)
+
+    for a in model.actors:
+        futs = {n.targets[0].attr for m in a.methods.values() for n in walk_body(m) if isinstance(n, ast.Assign) and len(n.targets) == 1 and is_self_attr(n.targets[0])
+                and isinstance(_through_locals(n.value, m), ast.Call) and last_attr(_through_locals(n.value, m).func) == "submit"}
+        f = model.table.method(a, "receiveMsg_WakeupMessage") if futs else None
+        if f is None:
+            continue
+        work, polled = [], False
+        for ci_, fn in model.method_closure(a, f):
+            if ci_ is not a and ci_ not in model.table.mro(a):
+                continue
+            names = {n.targets[0].id for n in walk_body(fn) if isinstance(n, ast.Assign) and len(n.targets) == 1 and isinstance(n.targets[0], ast.Name) and _is_poll(n.value)
+                     and is_self_attr(_through_locals(n.value.func.value, fn)) and _through_locals(n.value.func.value, fn).attr in futs}
+            # `try: <future>.result() except ... as e`: the same exception, re-raised by the future
+            names |= {h_.name for t in walk_body(fn) if isinstance(t, ast.Try) for h_ in t.handlers if h_.name
+                      and any(isinstance(c, ast.Call) and isinstance(c.func, ast.Attribute) and c.func.attr == "result" and is_self_attr(_through_locals(c.func.value, fn))
+                              and _through_locals(c.func.value, fn).attr in futs for s_ in t.body for c in ast.walk(s_))}
+            if names:
+                polled = True
+                work.append((fn, frozenset(names), 0))
+        if not polled:
+            continue  # O9.5 reports a handler that never reads the future's exception
+        raw, text, unrec, done = [], [], [], set()
+        while work:
+            fn, names, depth = work.pop()
+            if (id(fn), names) in done:
+                continue
+            done.add((id(fn), names))
+            defs = {k_: v_ for k_, v_ in _ldefs(fn).items() if k_ not in names}
+            for c in walk_body(fn):
+                if not isinstance(c, ast.Call):
+                    continue
+                if last_attr(c.func) in ("send", "ask", "tell") and len(c.args) >= 2:
+                    pl = source.inline_node(c.args[1], defs)
+                    built = isinstance(pl, ast.Call) and last_attr(pl.func) not in _TEXT_CALLS and not _is_poll(pl)
+                    vs = [_raw_flow(x, names) for x in (list(pl.args) + [k.value for k in pl.keywords] if built else [pl])]
+                    if True in vs:
+                        raw.append(c)
+                    elif None in vs:
+                        unrec.append(c)
+                    elif any((isinstance(x, ast.Name) and x.id in names) or _is_poll(x) for x in ast.walk(pl)):
+                        text.append(c)
+                elif is_self_attr(c.func) and depth < 2 and model.table.method(a, c.func.attr) is not None:
+                    h_ = model.table.method(a, c.func.attr)
+                    got = {p_ for p_, v_ in source.bind_args(c, h_).items() if _raw_flow(source.inline_node(v_, defs), names) is True}
+                    if got:
+                        work.append((h_, frozenset(got), depth + 1))
+        inst = f"{a.name}: the exception polled from {sorted(futs)} reaches message payloads only as text"
+        if unrec and not raw:
+            chk.unknown("O9.5p", f"{inst}: the use of the exception in `{short(unrec[0], 70)}` is not one of the recognised forms (object / text conversion / container)", unrec[0])
+            continue
+        chk.ob("O9.5p", inst, not raw, raw[0] if raw else (text[0] if text else f),
+               (f"the exception object itself is an argument of the message: {short(raw[0], 90)}" if raw else f"as text in {[short(c, 60) for c in text]}"),
+               key=f"{a.module.relpath}:{a.name}:polled-exception-as-text")
+
     # broad handler in the request loop re-raises
     ex = drv.cls("AsyncExecutor")
     call = drv.methods(ex).get("__call__")
@@ -2252,26 +2344,35 @@ def run(chk):
     if len(params_of(eb)) < 2:
         raise AnchorMissing("Task.error_behavior(self, <default>)")
     dpar = params_of(eb)[1]
-    # the level is "ignore" only for the literal 'non-fatal'; every other value — None (unset) but also the empty string a templated track may produce — does not ignore
-    for dflt, ignores, level in ((True, False, None), (True, True, "non-fatal"), (False, False, None), (False, True, "non-fatal"), (True, False, ""), (False, False, "")):
-        def atom(n, env, dflt=dflt, ignores=ignores, level=level):
-            # atoms are evaluated on representative values (any orientation / operator: ==, !=, in (...)), not recognised by their text
-            if isinstance(n, ast.BoolOp) or (isinstance(n, ast.UnaryOp) and isinstance(n.op, ast.Not)):
-                return None
-            try:
-                return bool(_ev(n, {dpar: "abort" if dflt else "continue", "self": Record(ignore_response_error_level=level)}))
-            except (CannotEval, TypeError, ValueError):
-                return None
+    def _behaviour_table(handed, how):
+        """Task.error_behavior decided for the configured on-error setting 'abort' / 'continue' x (task ignores non-fatal errors or not). The function is evaluated on the VALUE that
+        reaches its parameter for that setting - handed(setting): the setting as the worker stores it, as it hands it to the load generator and as the load generator keeps it
+        (the identity when every hop passes the configured string on unchanged) - so the kind of the value handed over (string / flag / respelled string) and the kind the
+        function compares its parameter with are checked against each other, whichever side spells it how."""
+        # the level is "ignore" only for the literal 'non-fatal'; every other value — None (unset) but also the empty string a templated track may produce — does not ignore
+        for dflt, ignores, level in ((True, False, None), (True, True, "non-fatal"), (False, False, None), (False, True, "non-fatal"), (True, False, ""), (False, False, "")):
+            val = handed("abort" if dflt else "continue")
 
-        try:
-            out = _decide(eb.body, atom, {})
-        except (_Uns, UnknownAtom) as e:
-            chk.unknown("O9.9", f"error_behavior is not a decision over (default is abort, task ignores non-fatal): {e}", eb)
-            break
-        got = out.value.value if out.kind == "return" and isinstance(out.value, ast.Constant) else None
-        want = "abort" if (dflt and not ignores) else "continue"
-        chk.ob("O9.9", f"error behaviour when on-error={'abort' if dflt else 'continue'} and the task {'ignores' if ignores else 'does not ignore'} non-fatal errors" + (" (level = '')" if level == "" else ""),
-               got == want, eb, f"{got}; expected {want}", key=f"esrally/track/track.py:Task.error_behavior:{dflt}|{ignores}" + ("|empty" if level == "" else ""))
+            def atom(n, env, val=val, level=level):
+                # atoms are evaluated on representative values (any orientation / operator: ==, !=, in (...), plain truth), not recognised by their text
+                if isinstance(n, ast.BoolOp) or (isinstance(n, ast.UnaryOp) and isinstance(n.op, ast.Not)):
+                    return None
+                try:
+                    return bool(_ev(n, {dpar: val, "self": Record(ignore_response_error_level=level)}))
+                except (CannotEval, TypeError, ValueError):
+                    return None
+
+            try:
+                out = _decide(eb.body, atom, {})
+            except (_Uns, UnknownAtom) as e:
+                chk.unknown("O9.9", f"error_behavior is not a decision over (default is abort, task ignores non-fatal): {e}", eb)
+                break
+            got = out.value.value if out.kind == "return" and isinstance(out.value, ast.Constant) else None
+            want = "abort" if (dflt and not ignores) else "continue"
+            chk.ob("O9.9", f"error behaviour when on-error={'abort' if dflt else 'continue'} and the task {'ignores' if ignores else 'does not ignore'} non-fatal errors" + (" (level = '')" if level == "" else ""),
+                   got == want, eb, f"{got}; expected {want}" + (f" ({dpar} = {val!r}: {how})" if how else ""), key=f"esrally/track/track.py:Task.error_behavior:{dflt}|{ignores}" + ("|empty" if level == "" else ""))
+
+    handed_, how_ = (lambda s_: s_), ""  # until the hops from the configuration to error_behavior are located: the configured string itself
     # by role: among the constructor arguments of the executor one is <t>.error_behavior(self.<a>) where <t> is itself handed to the executor (its task); the parameter it binds
     # is stored in the attribute the request loop hands to execute_single; self.<a> of the adapter is what the Worker passes for it, read from the 'on.error' setting
     exc_ = [n for m_ in adp_funcs for n in ast.walk(m_) if isinstance(n, ast.Call) and last_attr(n.func) == "AsyncExecutor"]
@@ -2280,6 +2381,7 @@ def run(chk):
     f0 = source.enclosing_func(exc_[0])
     bound = source.bind_args(exc_[0], exi)
     hit = None  # (constructor parameter, the object asked for its error behaviour, adapter attribute handed to it or None)
+    w_src = None  # self.<w> of the Worker: the attribute whose value the worker hands to the load generator as the on-error setting
     for p_, v_ in bound.items():
         w_ = _through_locals(v_, f0)  # `on_error = task.error_behavior(...)` bound to a local first is the same argument
         if isinstance(w_, ast.Call) and is_self_attr(w_.func) and drv.methods(ADP).get(w_.func.attr) is not None:
@@ -2344,12 +2446,28 @@ def run(chk):
         else:
             chk.ob("O9.9", "each executor gets its task's error behaviour derived from the worker's on-error setting", task_is_arg, exc_[0],
                    f"{t_}.{eb.name}(self.{a_attr}) -> AsyncExecutor.{x_attr} -> execute_single" + ("" if task_is_arg else f"; `{t_}` is not the task handed to this executor"))
-        w_src = ctor_source(wk_funcs, "AsyncIoAdapter", adp_init, a_attr) if a_attr else None
-        if w_src is not None:
-            w_src = _through_locals(w_src, source.enclosing_func(w_src))
-    if hit is not None and not is_self_attr(w_src):
+        # the hops of the setting, each one an expression over ONE source that is evaluated on the value coming in (no hop has to be a plain copy):
+        #   Worker.<w> = <expression over the 'on.error' read>  ->  AsyncIoAdapter(..., <expression over self.<w>>, ...)  ->  adapter: self.<a> = <expression over that parameter>
+        hops = []  # (expression, name the incoming value is bound to | None = self.<attribute>, attribute)
+        a_st = [n for n in walk_body(adp_init) if isinstance(n, ast.Assign) and len(n.targets) == 1 and is_self_attr(n.targets[0], a_attr)] if a_attr else []
+        if len(a_st) == 1:
+            e_a = source.inline_node(a_st[0].value, _ldefs(adp_init))
+            pns = {x.id for x in ast.walk(e_a) if isinstance(x, ast.Name) and x.id in params_of(adp_init) + [k_.arg for k_ in adp_init.args.kwonlyargs]}
+            sites = [(fn, c) for fn in wk_funcs for c in ast.walk(fn) if isinstance(c, ast.Call) and last_attr(c.func) == "AsyncIoAdapter"] if len(pns) == 1 else []
+            pn_ = next(iter(pns)) if len(pns) == 1 else None
+            if len(sites) == 1 and pn_ in source.bind_args(sites[0][1], adp_init):
+                e_w = source.inline_node(source.bind_args(sites[0][1], adp_init)[pn_], _ldefs(sites[0][0]))
+                w_attrs = {x.attr for x in ast.walk(e_w) if is_self_attr(x)}
+                fnames = {id(c.func) for c in ast.walk(e_w) if isinstance(c, ast.Call)}
+                if len(w_attrs) == 1 and not any(isinstance(x, ast.Name) and x.id != "self" and id(x) not in fnames for x in ast.walk(e_w)):
+                    w_src = next(x for x in ast.walk(e_w) if is_self_attr(x))
+                    hops = [(e_w, None, w_src.attr), (e_a, pn_, None)]
+    if hit is not None and w_src is None:
         chk.unknown("O9.9", "Worker: the value handed to AsyncIoAdapter as the on-error setting could not be followed to a Worker attribute", Wk.node)
-    elif hit is not None:
+        _behaviour_table(handed_, how_)
+    elif hit is None:
+        _behaviour_table(handed_, how_)
+    else:
         def _reads_setting(v_, fn):
             """True: the stored value reads the 'on.error' setting (in place, through a local, or inside a Worker helper it calls); False: it is a constant (located and wrong);
             None: anything else - a shape the rule does not follow"""
@@ -2369,6 +2487,32 @@ def run(chk):
                         f"the stored value `{short(stores[verdicts.index(None)][1], 60)}` could not be followed to the 'on.error' setting"), stores[verdicts.index(None)][1] if stores else Wk.node)
         else:
             chk.ob("O9.9", "worker reads on-error from the driver configuration", all(v_ is True for v_ in verdicts), stores[0][1], f"Worker.{w_src.attr}: {[short(n, 70) for _, n in stores]}")
+        # hop 0: what the worker stores, as an expression over the configuration read (the innermost call that names 'on.error'); a read the rule cannot isolate is taken as it is
+        if len(stores) == 1 and verdicts == [True]:
+            e_s = source.inline_node(stores[0][1].value, _ldefs(stores[0][0]))
+            reads = [c for c in ast.walk(e_s) if isinstance(c, ast.Call) and any(source.is_const(x, "on.error") for x in ast.walk(c))
+                     and not any(isinstance(d_, ast.Call) and d_ is not c and any(source.is_const(x, "on.error") for x in ast.walk(d_)) for d_ in ast.walk(c))]
+            if len(reads) == 1 and reads[0] is not e_s:
+                class _Read(ast.NodeTransformer):
+                    def visit_Call(self, n):
+                        return ast.Name(id="_configured_", ctx=ast.Load()) if n is reads[0] else self.generic_visit(n)
+                hops.insert(0, (_Read().visit(e_s), "_configured_", None))
+
+        def _handed(setting):
+            v_ = setting
+            for e_, name_, attr_ in hops:
+                v_ = _ev(e_, {name_: v_} if name_ else {"self": Record(**{attr_: v_})})
+            return v_
+
+        try:
+            for s_ in ("abort", "continue"):
+                _handed(s_)
+            handed_ = _handed
+            how_ = " -> ".join(short(e_, 50) for e_, _, _ in hops if not (isinstance(e_, ast.Name) or is_self_attr(e_)))
+        except (CannotEval, TypeError, ValueError) as e:
+            bad_ = next((e_ for e_, _, _ in hops if not (isinstance(e_, ast.Name) or is_self_attr(e_))), w_src)
+            chk.unknown("O9.9", f"the value that reaches {eb.name}() for the configured on-error setting could not be evaluated ({e}): `{short(bad_, 60)}`", Wk.node)
+        _behaviour_table(handed_, how_)
 
     # ---- O9.6 no results on error or cancel ----------------------------------------------------------
     chk.rule("O9.6", "in the coordinator every call that computes, stores or prints results (in whichever method; a helper inherits the conditions of its call sites) is reachable only "
@@ -2876,6 +3020,31 @@ VARIANTS = [
        "        if type(e) is elasticsearch.ConnectionError:\n            fatal_error = True\n\n", ""),
      V("", "keep", _D, "                request_meta_data[\"http-status\"] = e.errors[0].status\n",
        "                request_meta_data[\"http-status\"] = e.errors[0].status\n        if type(e) is elasticsearch.ConnectionError:\n            fatal_error = True\n")],
+    # O9.5p: the polled exception reaches the message as text (seed C09-m16)
+    V("seed m16: the task executor ships the raw exception object as the cause", "break", _D, "actor.BenchmarkFailure(\"Error in task executor\", str(e))", "actor.BenchmarkFailure(\"Error in task executor\", e)", "O9.5p"),
+    V("worker ships the exception object when it is one of rally's own, the text otherwise", "break", _D, "actor.BenchmarkFailure(f\"Error in load generator [{self.worker_id}]\", str(e))",
+      "actor.BenchmarkFailure(f\"Error in load generator [{self.worker_id}]\", e if isinstance(e, exceptions.RallyError) else str(e))", "O9.5p"),
+    V("task executor: a reporting helper puts the exception object it is handed into the message", "break", _D, "                self.send(self.task_preparation_actor, actor.BenchmarkFailure(\"Error in task executor\", str(e)))\n            else:\n                self.executor_future = None\n                self.send(self.task_preparation_actor, ReadyForWork())\n        else:\n            self.wakeupAfter(datetime.timedelta(seconds=self.wakeup_interval))\n",
+      "                self._report(e)\n            else:\n                self.executor_future = None\n                self.send(self.task_preparation_actor, ReadyForWork())\n        else:\n            self.wakeupAfter(datetime.timedelta(seconds=self.wakeup_interval))\n\n    def _report(self, error):\n        failure = actor.BenchmarkFailure(\"Error in task executor\", cause=error)\n        self.send(self.task_preparation_actor, failure)\n", "O9.5p"),
+    V("worker sends the exception's type name and text as a tuple", "break", _D, "actor.BenchmarkFailure(f\"Error in load generator [{self.worker_id}]\", str(e))",
+      "actor.BenchmarkFailure(f\"Error in load generator [{self.worker_id}]\", (type(e).__name__, e))", "O9.5p"),
+    V("task executor: cause converted with repr through a local", "keep", _D, "                self.send(self.task_preparation_actor, actor.BenchmarkFailure(\"Error in task executor\", str(e)))\n",
+      "                cause = repr(e)\n                self.send(self.task_preparation_actor, actor.BenchmarkFailure(\"Error in task executor\", cause))\n"),
+    V("worker: cause formatted with the exception's type name", "keep", _D, "actor.BenchmarkFailure(f\"Error in load generator [{self.worker_id}]\", str(e))",
+      "actor.BenchmarkFailure(f\"Error in load generator [{self.worker_id}]\", f\"{type(e).__name__}: {e}\")"),
+    V("worker: cause formatted with the % operator", "keep", _D, "actor.BenchmarkFailure(f\"Error in load generator [{self.worker_id}]\", str(e))",
+      "actor.BenchmarkFailure(f\"Error in load generator [{self.worker_id}]\", \"%s\" % e)"),
+    # O9.9: the value that reaches Task.error_behavior for the configured setting is of the kind the function compares it with (seed C09-m18)
+    V("seed m18: the worker hands the on-error setting to the load generator as a flag", "break", _D, "                    self.on_error,\n                    self.client_contexts,", "                    self.on_error == \"abort\",\n                    self.client_contexts,", "O9.9"),
+    V("the load generator keeps the on-error setting as a flag", "break", _D, "        self.abort_on_error = abort_on_error\n", "        self.abort_on_error = abort_on_error == \"abort\"\n", "O9.9"),
+    V("the worker stores the on-error setting as a flag", "break", _D, "        self.on_error = self.config.opts(\"driver\", \"on.error\")\n", "        self.on_error = self.config.opts(\"driver\", \"on.error\") == \"abort\"\n", "O9.9"),
+    V("the worker hands the on-error setting over in upper case", "break", _D, "                    self.on_error,\n                    self.client_contexts,", "                    self.on_error.upper(),\n                    self.client_contexts,", "O9.9"),
+    V("the worker hands the on-error setting over through str()", "keep", _D, "                    self.on_error,\n                    self.client_contexts,", "                    str(self.on_error),\n                    self.client_contexts,"),
+    V("the worker normalises the on-error setting when it stores it", "keep", _D, "        self.on_error = self.config.opts(\"driver\", \"on.error\")\n", "        self.on_error = self.config.opts(\"driver\", \"on.error\").strip().lower()\n"),
+    [V("the on-error setting travels as a flag and error_behavior tests the flag", "keep", _D, "                    self.on_error,\n                    self.client_contexts,", "                    self.on_error == \"abort\",\n                    self.client_contexts,"),
+     V("", "keep", "esrally/track/track.py", "        if default_error_behavior == \"abort\":\n", "        if default_error_behavior:\n")],
+    [V("the setting travels as a flag but error_behavior tests it the wrong way round", "break", _D, "                    self.on_error,\n                    self.client_contexts,", "                    self.on_error == \"abort\",\n                    self.client_contexts,", "O9.9"),
+     V("", "break", "esrally/track/track.py", "        if default_error_behavior == \"abort\":\n", "        if not default_error_behavior:\n")],
     # O9.4: the reporting helper of benign/C09-b12 - three constructions of the driver actor become one, inside `_report_failure(message, cause=None)`; the reports are its call sites
     _x_report_helper("        self.send(self.benchmark_actor, actor.BenchmarkFailure(message, cause))\n", "keep", "driver actor reports failures through _report_failure(message, cause)"),
     _x_report_helper("        failure = actor.BenchmarkFailure(message, cause)\n        self.send(self.benchmark_actor, failure)\n", "keep", "_report_failure binds the message to a local before it sends it"),
